@@ -126,7 +126,7 @@ static AMesh* buildMesh(const Value& m, int nd)
   for (int i = 0; i < (int)ms.size(); i++) for (int k = 0; k <= nd; k++) M.setValue(i, k, ms[i][k].i());
   return MeshEStandard::createFromExternal(A, M, false);
 }
-static Db* pointsDb(int nd, const Value& xs, const VectorDouble* z)
+static Db* pointsDb(int nd, const Value& xs, const VectorDouble* z, const VectorDouble* verr = nullptr)
 {
   int n = (int)xs.size();
   VectorDouble tab;
@@ -142,6 +142,12 @@ static Db* pointsDb(int nd, const Value& xs, const VectorDouble* z)
     for (int i = 0; i < n; i++) tab.push_back((*z)[i]);
     names.push_back("z1");
     locs.push_back("z1");
+  }
+  if (verr != nullptr)
+  {
+    for (int i = 0; i < n; i++) tab.push_back((*verr)[i]);
+    names.push_back("verr");
+    locs.push_back("v1");
   }
   return Db::createFromSamples(n, ELoadBy::COLUMN, tab, names, locs, false);
 }
@@ -160,7 +166,9 @@ static void runConfig(const Value& c, Value& o)
   VectorDouble ranges = vd(mo.at("ranges")), angles = vd(mo.at("angles"));
   std::unique_ptr<Model> model1(Model::createFromParam(ECov::MATERN, 1., sill, nu, ranges, VectorDouble(), angles));
   std::unique_ptr<Model> model2(Model::createFromParam(ECov::MATERN, 1., sill, nu, ranges, VectorDouble(), angles));
-  model2->addCovFromParam(ECov::NUGGET, 0., nugget);
+  // data error variance: the nugget effect of the model, or a variable V (then the model has no nugget effect)
+  bool hasV = c.at("data").has("verr");
+  if (!hasV) model2->addCovFromParam(ECov::NUGGET, 0., nugget);
   CovAniso* cova = model1->getCova(0);
   VectorDouble v1 = vd(c.at("v1")), v2 = vd(c.at("v2"));
   if ((int)v1.size() != n || (int)v2.size() != n) throw std::runtime_error("test vectors do not have the size of the mesh");
@@ -321,12 +329,30 @@ static void runConfig(const Value& c, Value& o)
   const Value& da = c.at("data");
   VectorDouble z = vd(da.at("z"));
   int ndat = (int)z.size();
-  std::unique_ptr<Db> dbin(pointsDb(nd, da.at("x"), &z));
+  VectorDouble dvar = hasV ? vd(da.at("verr")) : VectorDouble(ndat, nugget);      // variance of each datum
+  if ((int)dvar.size() != ndat) throw std::runtime_error("one variance per datum expected");
+  std::unique_ptr<Db> dbin(pointsDb(nd, da.at("x"), &z, hasV ? &dvar : nullptr));
   std::unique_ptr<Db> dbout(pointsDb(nd, c.at("targets"), nullptr));
   ProjMatrix B(dbin.get(), mesh.get());
   if (B.getPointNumber() != ndat || B.getApexNumber() != n) throw std::runtime_error("projection matrix of the data has a wrong shape");
   Mat Bd = denseOf(&B);
-  Mat Ad = Qd + Bd.transpose() * Bd / nugget;
+  // the kriging system assembled from its public parts: Q (PrecisionOpCs::getQ), A (ProjMatrix), D (nugget or V values)
+  Mat Dinv = Mat::Zero(ndat, ndat);
+  for (int i = 0; i < ndat; i++) Dinv(i, i) = 1. / dvar[i];
+  Mat Ad = Qd + Bd.transpose() * Dinv * Bd;
+  Vec rhsWant = Bd.transpose() * Dinv * toVec(z);
+  auto setVariance = [&](PrecisionOpMultiConditional& A) { if (hasV) A.setVarianceDataVector(dvar); else A.setVarianceData(nugget); };
+  auto matrixOfMulti = [&](const PrecisionOpMultiConditional& A) {
+    Mat P(n, n);
+    for (int i = 0; i < n; i++)
+    {
+      std::vector<std::vector<double>> e(1, std::vector<double>(n, 0.)), y(1, std::vector<double>(n, 0.));
+      e[0][i] = 1.;
+      A.evalDirect(e, y);
+      P.col(i) = toVec(y[0]);
+    }
+    return P;
+  };
   double lminA = lambdaMin(Ad);
   info["lambda_min_A"] = Value(lminA);
   info["lambda_min_Q"] = Value(lambdaMin(Qd));
@@ -339,17 +365,17 @@ static void runConfig(const Value& c, Value& o)
     PrecisionOpCs pk(mesh.get(), cova);
     PrecisionOpMultiConditionalCs A;
     if (A.push_back(&pk, &B) != 0) throw std::runtime_error("push_back failed");
-    A.setVarianceData(nugget);
+    setVariance(A);
     A.makeReady();
     rhs = A.computeRhs(zs);
     for (auto& e : rhs) nb += toVec(e).norm();
     std::vector<std::vector<double>> x(1, std::vector<double>(n, 0.));
     A.evalInverse(rhs, x);
     xchol = toVec(x[0]);
-    put(M, "SolveResidual.MultiCondCs", backwardError(Ad, xchol, toVec(rhs[0])), 1., "evalInverse");
-    // the right-hand side itself: A' z / s2
-    Vec want = Bd.transpose() * toVec(z) / nugget;
-    put(M, "SolveResidual.Rhs", maxabs(Vec(toVec(rhs[0]) - want)), maxabs(want), "computeRhs");
+    // against the independently assembled system and right-hand side
+    put(M, "SolveResidual.MultiCondCs", backwardError(Ad, xchol, rhsWant), 1., "evalInverse");
+    put(M, "SolveResidual.Rhs", maxabs(Vec(toVec(rhs[0]) - rhsWant)), maxabs(rhsWant), "computeRhs");
+    put(M, "OpEqualsMatrix.MultiCond", maxabs(Mat(matrixOfMulti(A) - Ad)), maxabs(Ad), "cs");
     logdetOpChol = A.computeLogDetOp(1);
   });
   for (auto& ev : c.at("cgepsset").arr)
@@ -362,7 +388,7 @@ static void runConfig(const Value& c, Value& o)
       PrecisionOp pk(mesh.get(), cova);
       PrecisionOpMultiConditional A;
       if (A.push_back(&pk, &B) != 0) throw std::runtime_error("push_back failed");
-      A.setVarianceData(nugget);
+      setVariance(A);
       A.setEps(eps);
       A.setNIterMax(c.at("cgnitermax").i());
       std::vector<std::vector<double>> x(1, std::vector<double>(n, 0.)), ax(1, std::vector<double>(n, 0.));
@@ -371,6 +397,7 @@ static void runConfig(const Value& c, Value& o)
       double bound = std::sqrt(eps * nb);
       Vec X = toVec(x[0]), R = toVec(rhs[0]);
       put(M, "SolveResidual.MultiCondCG", (toVec(ax[0]) - R).norm(), bound, "operator", tag);
+      if (eps == c.at("cgepsset")[0].d()) put(M, "OpEqualsMatrix.MultiCond", maxabs(Mat(matrixOfMulti(A) - Ad)), maxabs(Ad), "matrixfree");
       put(M, "SolveResidual.MultiCondCGvsAssembled", (Ad * X - R).norm(), bound, "assembled", tag);
       if (xchol.size() == n) put(M, "CholEqualsCG.MultiCond", (X - xchol).norm(), bound / lminA, "solution", tag);
     });
@@ -380,7 +407,7 @@ static void runConfig(const Value& c, Value& o)
     PrecisionOp pk(mesh.get(), cova);
     PrecisionOpMultiConditional A;
     if (A.push_back(&pk, &B) != 0) throw std::runtime_error("push_back failed");
-    A.setVarianceData(nugget);
+    setVariance(A);
     // as SPDE::computeLogLikelihood does, the operator has been applied before (on a fresh PrecisionOp
     // getRangeEigenVal dereferences a polynomial that does not exist yet)
     (void)applyOp(pk, V1);
@@ -395,7 +422,7 @@ static void runConfig(const Value& c, Value& o)
   {
     std::unique_ptr<SPDE> s1, s0;
     VectorDouble est1, est0;
-    double bound = std::nan(""), rn = 0;
+    double bound = std::nan(""), rn = 0, quadWant = std::nan("");
     measure(M, "CholEqualsCG.KrigingSPDE", [&]() {
       s1.reset(new SPDE(model2.get(), dbout.get(), dbin.get(), ESPDECalcMode::KRIGING, mesh.get(), 1));
       s0.reset(new SPDE(model2.get(), dbout.get(), dbin.get(), ESPDECalcMode::KRIGING, mesh.get(), 0));
@@ -404,34 +431,49 @@ static void runConfig(const Value& c, Value& o)
       int u0 = s0->compute(dbout.get());
       est0 = dbout->getColumnByUID(u0);
       if (est1.empty() || est1.size() != est0.size()) throw std::runtime_error("kriging produced no column");
-      // the system actually solved, as the object holds it
-      const PrecisionOpMultiConditional* pk = s1->getPrecisionKrig();
-      VectorDouble var = pk->getAllVarianceData();
-      Mat Bs = denseOf(s1->getProjMatrix(0));
-      Mat Qs = denseOf(s1->getPrecisionOpCs(0)->getQ());
-      if ((int)var.size() != Bs.rows()) throw std::runtime_error("variance of the data and projection matrix do not match");
-      Mat D = Mat::Zero(Bs.rows(), Bs.rows());
-      for (int i = 0; i < (int)var.size(); i++) D(i, i) = 1. / var[i];
-      Mat As = Qs + Bs.transpose() * D * Bs;
-      std::vector<std::vector<double>> r = pk->computeRhs(zs);
-      double nbs = 0;
-      for (auto& e : r) nbs += toVec(e).norm();
-      rn = toVec(r[0]).norm();
+      // the kriging system assembled independently of the operators of the object: Q (PrecisionOpCs::getQ of an operator
+      // built here), A (ProjMatrix built here), D = the V values; without variable V the variance is the nugget effect
+      // raised to the floor of the class: it is read from the object (constant over the data)
+      VectorDouble var = dvar;
+      if (!hasV) var = s1->getPrecisionKrig()->getAllVarianceData();
+      if ((int)var.size() != ndat) throw std::runtime_error("variance of the data and projection matrix do not match");
+      Mat D = Mat::Zero(ndat, ndat);
+      for (int i = 0; i < ndat; i++) D(i, i) = 1. / var[i];
+      Mat As = Qd + Bd.transpose() * D * Bd;
+      Vec r = Bd.transpose() * D * toVec(z);
+      double nbs = r.norm();
+      rn = nbs;
       double lm = lambdaMin(As);
       bound = std::sqrt(c.at("cgeps").d() * nbs) / lm;
-      info["spde_variance_data"] = jv(var);
+      info["spde_variance_data"] = jv(s1->getPrecisionKrig()->getAllVarianceData());
       info["spde_lambda_min"] = Value(lm);
       // agreement of the two modes, and each against the solution of the assembled system (projected on the targets)
       put(M, "CholEqualsCG.KrigingSPDE", maxabs(Vec(toVec(est1) - toVec(est0))), bound, "chol-cg");
       ProjMatrix Bo(dbout.get(), mesh.get());
-      Vec xs = As.ldlt().solve(toVec(r[0]));
+      Vec xs = As.ldlt().solve(r);
       Vec want = denseOf(&Bo) * xs;
       put(M, "CholEqualsCG.KrigingSPDE", maxabs(Vec(toVec(est0) - want)), bound, "cg-assembled");
+      put(M, "CholEqualsCG.KrigingSPDE", maxabs(Vec(toVec(est1) - want)), bound, "chol-assembled");
+      // the same through the function krigingSPDE
+      for (int useChol = 1; useChol >= 0; useChol--)
+      {
+        int ncol = dbout->getColumnNumber();
+        if (krigingSPDE(dbin.get(), dbout.get(), model2.get(), nullptr, true, false, mesh.get(), useChol) < 0 || dbout->getColumnNumber() != ncol + 1)
+          throw std::runtime_error("krigingSPDE produced no column");
+        VectorDouble e = dbout->getColumnByColIdx(ncol);
+        put(M, "CholEqualsCG.KrigingSPDE", maxabs(Vec(toVec(e) - want)), bound, useChol ? "krigingSPDE(chol)-assembled" : "krigingSPDE(cg)-assembled");
+      }
+      // quadratic term of the likelihood z' Sigma^-1 z, Sigma = A Q^-1 A' + D
+      Mat Sigma = Bd * Qd.ldlt().solve(Mat(Bd.transpose()));
+      for (int i = 0; i < ndat; i++) Sigma(i, i) += var[i];
+      quadWant = toVec(z).dot(Sigma.ldlt().solve(toVec(z)));
     });
     measure(M, "CholEqualsCG.Quadratic", [&]() {
       if (!s1 || !s0 || std::isnan(bound)) throw std::runtime_error("kriging by the SPDE class failed");
       double q1 = s1->computeQuad(), q0 = s0->computeQuad();
       put(M, "CholEqualsCG.Quadratic", std::abs(q1 - q0), rn * bound, "computeQuad");
+      put(M, "CholEqualsCG.Quadratic", std::abs(q1 - quadWant), rn * bound + 1e-9 * std::abs(quadWant), "chol-assembled");
+      put(M, "CholEqualsCG.Quadratic", std::abs(q0 - quadWant), rn * bound + 1e-9 * std::abs(quadWant), "cg-assembled");
       info["quad_chol"] = Value(q1);
       info["quad_cg"] = Value(q0);
     });
@@ -465,6 +507,8 @@ static void runConfig(const Value& c, Value& o)
       Mat Pd = denseOf(AM.getProj()), Nd = denseOf(invnoise.get()), Qn = denseOf(Qop.getQ());
       An = Qn + Pd.transpose() * Nd * Pd;
       rn = Pd.transpose() * Nd * toVec(z);
+      // with a variable V the system is known from the V values alone: Q + A' D^-1 A (no public part of the operator used)
+      if (hasV) { An = Ad; rn = rhsWant; }
       lm = lambdaMin(An);
       VectorDouble x = sm.kriging(z);
       if ((int)x.size() != n) throw std::runtime_error("SPDEOpMatrix::kriging failed");
@@ -501,6 +545,9 @@ static void runConfig(const Value& c, Value& o)
       if (r1.empty() || r1.size() != r0.size()) throw std::runtime_error("krigingSPDENew returned nothing");
       double bound = c.at("eigentolnew").d() * rn.norm() / lm;
       put(M, "CholEqualsCG.KrigingSPDENew", maxabs(Vec(toVec(r1) - toVec(r0))), bound, "chol-cg");
+      ProjMatrix Bo(dbout.get(), mesh.get());
+      Vec want = denseOf(&Bo) * An.ldlt().solve(rn);
+      put(M, "CholEqualsCG.KrigingSPDENew", maxabs(Vec(toVec(r1) - want)), bound, "chol-assembled");
     });
   }
 
